@@ -144,7 +144,8 @@ pub trait CholeskyDecomposableMatrix<T: RealNumber>: BaseMatrix<T> {
             }
             d = self.get(j, j) - d;
 
-            if d < T::zero() {
+            // `!(d > 0)` also catches a NaN pivot (zero pivot earlier in an indefinite matrix) and d == 0
+            if !(d > T::zero()) {
                 return Err(Failed::because(
                     FailedError::DecompositionFailed,
                     "The matrix is not positive definite.",
